@@ -609,6 +609,45 @@ def gen_merges(simfuncs):
     return "\n\n".join(out) + "\n"
 
 
+def gen_monitor_cond():
+    """monitor_rss_process: the decision to rewrite the peak file.  Inside the polling loop exactly
+    one `if` guards the writes to max-rss.txt; its test is translated as a function of the new
+    sample and the stored maximum, and its first statement must store the sample as the new
+    maximum (`max_rss_gib = total_rss_gib`)."""
+    tree = ast.parse((REPO / "bblean/_memory.py").read_text())
+    fn = find_func(tree, "monitor_rss_process")
+    loop = next((n for n in fn.body if isinstance(n, ast.While)), None)
+    if loop is None:
+        raise Unsupported("monitor_rss_process: no polling loop")
+    guards = [st for st in loop.body if isinstance(st, ast.If)
+              and any(isinstance(c, ast.Constant) and isinstance(c.value, str) and "max-rss" in c.value
+                      for c in ast.walk(st))]
+    others = [st for st in loop.body if not isinstance(st, ast.If)
+              and any(isinstance(c, ast.Constant) and isinstance(c.value, str) and "max-rss" in c.value
+                      for c in ast.walk(st))]
+    if len(guards) != 1 or others:
+        raise Unsupported("monitor_rss_process: the peak file is not written under exactly one guard")
+    g = guards[0]
+    if g.orelse:
+        raise Unsupported(f"line {g.lineno}: the guard of the peak file has an else branch")
+    first = g.body[0]
+    if not (isinstance(first, ast.Assign) and len(first.targets) == 1 and isinstance(first.targets[0], ast.Name)
+            and first.targets[0].id == "max_rss_gib" and isinstance(first.value, ast.Name)
+            and first.value.id == "total_rss_gib"):
+        raise Unsupported(f"line {first.lineno}: the stored maximum is not set to the new sample")
+    for st in loop.body:
+        for n in ast.walk(st):
+            if isinstance(n, (ast.Assign, ast.AugAssign)) and n is not first:
+                tg = n.targets if isinstance(n, ast.Assign) else [n.target]
+                if any(isinstance(t, ast.Name) and t.id == "max_rss_gib" for t in tg):
+                    raise Unsupported(f"line {n.lineno}: max_rss_gib is assigned elsewhere in the loop")
+    ctx = Ctx({"total_rss_gib": ("total_rss_gib", "f64"), "max_rss_gib": ("max_rss_gib", "f64")}, "bool", {}, {}, False)
+    t, ty = Tr(ctx).expr(g.test)
+    if ty != "bool":
+        raise Unsupported("monitor guard is not a boolean")
+    return f"Definition monitor_update_cond (total_rss_gib max_rss_gib : float) : bool :=\n  {t}."
+
+
 def gen_mem():
     """bblean/_memory.py: _ArrayMemPagesManager.should_release_curr_page /
     release_curr_page_and_update_addr (the madvise call is recorded as an effect)."""
@@ -923,8 +962,14 @@ def gen_mr():
         "bblean/multiround.py", "_save_bufs_and_mol_idxs", "save_names",
         [("out_dir", "path"), ("label", "str"), ("round_idx", "int"), ("dtype", "str")],
         {}, effects=["_numpy_streaming_save", "open"]))
-    out.append(gen_mr_deletions())
     out.append(gen_mr_prev_globs())
+    return "\n\n".join(out) + "\n"
+
+
+def gen_mr_del():
+    """bblean/multiround.py: what the workflow deletes and how it publishes its final files"""
+    out = [HEADER.format(src="bblean/multiround.py (deletion and publication plans)")]
+    out.append(gen_mr_deletions())
     out.append(gen_mr_publish())
     return "\n\n".join(out) + "\n"
 
@@ -975,8 +1020,10 @@ def main():
     else:
         attempt("GMerges", lambda: (_ for _ in ()).throw(Unsupported("GSim failed")))
     attempt("GMem", gen_mem)
+    attempt("GMon", lambda: HEADER.format(src="bblean/_memory.py (monitor_rss_process)") + "\n" + gen_monitor_cond() + "\n")
     attempt("GUtil", gen_util)
     attempt("GMr", gen_mr)
+    attempt("GMrDel", gen_mr_del)
     for k, v in status.items():
         print(f"translate {k}: {v}")
     return 0 if all(v == "ok" for v in status.values()) else 1
